@@ -119,6 +119,7 @@ fn worker(engine: &dyn Engine, prop: &str, tier: &str, master: u64, start: u64, 
     let plan = scaled_plan(engine, prop, tier);
     let total: u64 = plan.iter().map(|p| p.1).sum();
     let out = std::io::stdout();
+    let known = load_known();
     let mut batch = Batch::default();
     let mut last_flush = Instant::now();
     let mut sample_sent = 0;
@@ -174,7 +175,9 @@ fn worker(engine: &dyn Engine, prop: &str, tier: &str, master: u64, start: u64, 
                 let _ = o.flush();
             }
             let _ = min_budget;
-            if std::env::var_os("VERIF_NO_MINIMISE").is_none() && v.class != "hang" && v.class != "harness-error" {
+            // a listed known finding is only counted, there is nothing to minimise
+            let is_known = match_known(&known, prop, &case, &v).is_some();
+            if std::env::var_os("VERIF_NO_MINIMISE").is_none() && v.class != "hang" && v.class != "harness-error" && !is_known {
                 let m = engine.minimise(&case, &sig);
                 let f = Found { idx, case: m, violation: v, minimised: true };
                 let mut o = out.lock();
